@@ -261,7 +261,9 @@ def gen_p(rng, cols, depth=2, wild_ranges=False, leaf_lits=True):
             return ["inrange", gen_e(rng, cols, 1), gen_range(rng, wild_ranges), rng.choice(["factory", "factory", "ctor"])]
         if LONG_SEQ and rng.random() < LONG_SEQ:
             # scale: a long all-literal sequence (an IN list with dozens of bind parameters)
-            items = [["lit", rng.randint(-40, 40)] for _ in range(rng.choice([20, 45, 120, 20, 45, 120, 20, 45, 120, 20, 45, 1013]))]
+            # (all items but the last three lie outside the data, so the last ones decide)
+            size = rng.choice([20, 45, 120, 20, 45, 120, 20, 45, 120, 20, 45, 1013])
+            items = [["lit", 1000 + i] for i in range(size - 3)] + [["lit", rng.randint(-3, 3)] for _ in range(3)]
         elif rng.random() < 0.35:
             items = [["lit", gen_lit(rng, -3, 3)] for _ in range(rng.randint(0, 3))]  # all-literal sequence
         else:
